@@ -3,6 +3,8 @@ package main
 import (
 	"encoding/hex"
 	"fmt"
+	"os"
+	"runtime/pprof"
 	"strings"
 
 	"github.com/polynetwork/poly/common"
@@ -254,6 +256,11 @@ func (f *witness) line(kind, id string, variant int, via, signers, owner string)
 }
 
 func (f *witness) Gen(r *hx.Run) {
+	if p := os.Getenv("HNATIVE_PROF"); p != "" {
+		pf, _ := os.Create(p)
+		pprof.StartCPUProfile(pf)
+		defer pprof.StopCPUProfile()
+	}
 	r.Rule("every method of the guard table that can be invoked (27 governance/cross-chain methods, SyncGenesisHeader for 21 routers, 2 unguarded controls) x signer sets {-, op, each single validator, three validators, own, oth, op+own, oth+own, the zero address} x owner role x direct / through one / through two calling contracts, on a state with 4 consensus validators and a registered side chain per router; successful calls of the stateful walk are persisted, so later calls see candidates, requests and approvals; distinct non-trivial = distinct (method, signer set, owner role, via, outcome)")
 	signerSets := []string{"-", "op", "v1", "v2", "v1,v2,v3", "own", "oth", "op,own", "oth,own", "z", "v4", "op,oth"}
 	owners := []string{"own", "oth", "v1", "v4", "op", "A", "z"}
